@@ -345,7 +345,7 @@ pub fn c27(args: &Args) -> i32 {
         }
     }
     let idents = all_idents();
-    run.set_rule("all programs of 1..L lines (L = 2 quick, 3 thorough; quick adds every 3-line program over the 7 lines that switch, create or drop a KG, write or read) over a 27-symbol line alphabet (query, insert, delete, persistent rule, schema, .rel drop, .rule drop, .kg use B, .kg create C, .kg create B (exists), three comment styles, trailing comment, blank line, indented continuation, indented statements, session rule, session fact, .rel, .kg drop B, .kg acl grant B, and two meta commands split over two lines) x 32 identities (global viewer/editor x role on A x role on B in none/viewer/editor/owner), submitted through Handler::execute_program on KG A of a freshly built two-KG store; a KG on which the caller lacks write permission must be unchanged (facts, rules, schemas), the internal KG unchanged, no KG created by a global viewer. non-trivial = (program, identity) pairs whose program contains a state-changing line");
+    run.set_rule("all programs of 1..L lines (L = 2 quick, 3 thorough; quick adds every 3-line program over the 7 lines that switch, create or drop a KG, write or read) over a 27-symbol line alphabet (query, insert, delete, persistent rule, schema, .rel drop, .rule drop, .kg use B, .kg create C, .kg create B (exists), three comment styles, trailing comment, blank line, indented continuation, indented statements, session rule, session fact, .rel, .kg drop B, .kg acl grant B, and two meta commands split over two lines) x 32 identities (global viewer/editor x role on A x role on B in none/viewer/editor/owner), submitted through Handler::execute_program on KG A of a freshly built two-KG store; a KG on which the caller lacks write permission must be unchanged (facts, rules, schemas), the internal KG unchanged, no KG created by a global viewer. Admin-only leg: 7 statements that manage users, API keys or compaction x 6 shapes x the 32 identities: refused, internal KG unchanged. non-trivial = (program, identity) pairs whose program contains a state-changing line");
     run.put("programs", json!(progs.len()));
     run.put("identities", json!(idents.len()));
     let total = progs.len() * idents.len();
@@ -373,6 +373,53 @@ pub fn c27(args: &Args) -> i32 {
             Err(pn) => run.violation("panic", json!({"program_idx": p, "global": id.global, "a": id.a, "b": id.b}), crate::e1::panic_msg(&pn)),
         }
     });
+    // admin-only leg: statements that manage users, API keys or compaction, in the shapes that have slipped past
+    // authorization before (alone, after a comment, before a write, after a KG switch, indented after a comment,
+    // split over two lines); no non-admin identity may get them accepted or change the internal KG with them
+    let admin_only = [".user create zed Passw0rd12345 viewer", ".user drop u", ".user role u editor", ".user password u Newpassw0rd123", ".apikey create k1", ".apikey revoke k1", ".compact"];
+    let mut admin_cases = 0u64;
+    for stmt in admin_only {
+        let split = stmt.rsplitn(2, ' ').collect::<Vec<_>>();
+        let mut shapes: Vec<(&str, String)> = vec![("alone", stmt.to_string()), ("after_comment", format!("// c\n{stmt}")), ("before_write", format!("{stmt}\n+e(3)")), ("after_kg_use", format!(".kg use B\n{stmt}")), ("indented_after_comment", format!("% c\n  {stmt}"))];
+        if split.len() == 2 {
+            shapes.push(("split_over_two_lines", format!("{}\n{}", split[1], split[0])));
+        }
+        for (shape_name, text) in shapes {
+            for id in &idents {
+                admin_cases += 1;
+                run.evaluations.fetch_add(1, std::sync::atomic::Ordering::Relaxed);
+                let env = Env::new("c27adm");
+                setup_two_kgs(&env);
+                let role = if id.global == 0 { "viewer" } else { "editor" };
+                env.add_user("u", role);
+                if id.a > 0 {
+                    env.grant("A", "u", KGROLE[id.a as usize]);
+                }
+                if id.b > 0 {
+                    env.grant("B", "u", KGROLE[id.b as usize]);
+                }
+                let before = env.kg_state(INTERNAL_KG);
+                let identity = AuthIdentity { username: "u".into(), role: if id.global == 0 { Role::Viewer } else { Role::Editor } };
+                let res = env.run(None, Some("A"), &text, Some(&identity));
+                let after = env.kg_state(INTERNAL_KG);
+                let kind = stmt.split(' ').take(2).collect::<Vec<_>>().join("_").replace('.', "");
+                let case = json!({"leg": "admin_only", "program": text, "global": id.global, "a": id.a, "b": id.b});
+                if before != after {
+                    run.violation(&format!("admin_only:{kind}:{shape_name}:internal_kg_changed"), case, format!("identity global={role} A={} B={}: request {text:?} changed the internal KG; reply {:?}", KGROLE[id.a as usize], KGROLE[id.b as usize], messages(&res)));
+                } else if shape_name != "split_over_two_lines" && shape_name != "before_write" {
+                    // the statement itself must be refused (a split command is not a statement at all and may fail any way)
+                    let refused = match &res {
+                        Err(_) => true,
+                        Ok(_) => messages(&res).iter().any(|m| m.contains("enied") || m.contains("ermission") || m.contains("rror") || m.contains("failed")),
+                    };
+                    if !refused {
+                        run.violation(&format!("admin_only:{kind}:{shape_name}:accepted"), case, format!("identity global={role} A={} B={}: request {text:?} was not refused; reply {:?}", KGROLE[id.a as usize], KGROLE[id.b as usize], messages(&res)));
+                    }
+                }
+            }
+        }
+    }
+    run.put("admin_only_cases", json!(admin_cases));
     run.put("states", json!(states.lock().unwrap().len()));
     run.put("transitions", json!(done));
     run.put("traces_validated_against_impl", json!(done));
